@@ -1,4 +1,51 @@
-(* placeholder *)
-From GR Require Import Base Resp.
-Theorem C20_placeholder : True. Proof. exact I. Qed.
-Print Assumptions C20_placeholder.
+(* C20 — tracing spans are balanced for every request outcome.  Property theorems only. *)
+From Coq Require Import String.
+From GR Require Import Base Resp Handler Exec Conn ConnFacts LoopFacts.
+
+Section C20.
+  Variable hstate : Type.
+  Variable handle : hstate -> Z -> hcall -> hstate * hresult.
+  Variable regexp_src : bytes -> bytes.
+  Variable fw_text : bytes -> args -> bytes.
+
+  (* `bal l false 0 = true`: scanning the span events of the trace in order, a root span is started only when none
+     is open, child spans (parse, command, commands composed from other commands, response) are started only inside
+     a root and finished innermost-first, the root is finished only when no child is open, and nothing is open at
+     the end.  For EVERY input byte string (valid requests, argument errors, unknown commands, unauthorized, QUIT,
+     protocol errors, end of stream anywhere), every configuration, TLS admission outcome and handler. *)
+  Theorem C20_spans_balanced : forall ss hs tls input,
+    bal (trace hstate (serve hstate handle regexp_src fw_text ss hs tls input)) false 0 = true.
+  Proof. exact (serve_balanced hstate handle regexp_src fw_text). Qed.
+
+  (* the structure behind it: the trace is registration, complete iterations — each [root start; parse span; the
+     command's own events (properly nested spans and handler calls only); response span with one write; root
+     finish] — an optional closing iteration [root start; parse span; root finish], deregistration, close *)
+  Theorem C20_iteration_structure : forall ss hs tls input,
+    admitted ss tls = true ->
+    exists its closing,
+      trace hstate (serve hstate handle regexp_src fw_text ss hs tls input) = [EvRegister] ++ loop_evs its closing ++ [EvDeregister; EvClose] /\
+      its_good its /\ (closing = [] \/ closing = loop_closing) /\
+      (fst (serve hstate handle regexp_src fw_text ss hs tls input) = EndQuit \/ fst (serve hstate handle regexp_src fw_text ss hs tls input) = EndEOS
+       \/ fst (serve hstate handle regexp_src fw_text ss hs tls input) = EndProtoErr).
+  Proof. exact (serve_shape hstate handle regexp_src fw_text). Qed.
+End C20.
+Print Assumptions C20_spans_balanced.
+Print Assumptions C20_iteration_structure.
+
+(* the checker rejects what the property forbids *)
+Example C20_bal_rejects :
+  bal [EvRootStart; EvSpanStart (B"parse"); EvRootFinish] false 0 = false /\          (* child left open *)
+  bal [EvRootStart; EvRootFinish; EvRootFinish] false 0 = false /\                    (* finished twice *)
+  bal [EvRootStart; EvSpanStart (B"GET")] false 0 = false /\                          (* left open at the end *)
+  bal [EvRootStart; EvRootStart] false 0 = false /\                                   (* second root inside the first *)
+  bal [EvSpanStart (B"x"); EvSpanFinish] false 0 = false.                             (* child outside a root *)
+Proof. vm_compute. auto. Qed.
+(* non-vacuity: STRLEN (a command composed from GET) on a password-protected connection after AUTH *)
+Example C20_ex :
+  let h := fun (s : unit) (_ : Z) (_ : hcall) => (s, hr_ok (RBulk (Some (B"abc")))) in
+  let q n := RArr (map (fun s => RBulk (Some s)) n) in
+  let ss := {| ss_config := [(B"requirepass", B"pw")]; ss_auths := [AClear [] (B"pw")]; ss_app := [] |} in
+  let r := Conn.serve unit h (fun p => p) (fun _ _ => B"ERR") ss tt None (flat_map encode [q [B"STRLEN"; B"k"]; q [B"AUTH"; B"pw"]; q [B"STRLEN"; B"k"]; q [B"NOSUCH"]]) in
+  ev_writes (Conn.trace unit r) = [B"-ERR" ++ CRLF; B"+OK" ++ CRLF; B":3" ++ CRLF; B"-ERR" ++ CRLF] /\
+  length (filter (fun e => match e with EvSpanStart _ => true | _ => false end) (Conn.trace unit r)) = 13%nat.
+Proof. vm_compute. auto. Qed.
